@@ -42,6 +42,8 @@ Init ==
   \/ row = [k |-> "h0", done |-> FALSE]
   \/ \E k1 \in 1..NK : row = [k |-> "o0", k1 |-> k1, done |-> FALSE]
   \/ \E a \in 1..Det!NK, b \in 1..Det!NK : row = [k |-> "d0", a |-> a, b |-> b, done |-> FALSE]
+  \/ \E a \in 1..Opt!NJ : row = [k |-> "j0", a |-> a, done |-> FALSE]
+  \/ \E o1 \in 1..Flow!NTail : row = [k |-> "t0", o1 |-> o1, done |-> FALSE]
 
 Next ==
   /\ ~row.done
@@ -68,6 +70,13 @@ Next ==
                 /\ (row.a + 2 * row.b + 3 * c + 5 * d + Seed - 1) % (IF Tier = "thorough" THEN 3 ELSE 17) = 0
                 /\ row' = MkRow("det", Det!Observe(Det!HashLit(<<row.a, row.b, c, d>>)))
            \/ \E c \in 1..Det!NK : row' = MkRow("det", <<<<"ret", <<"call", "string", <<<<"arr", <<Det!Nested(<<row.a, row.b>>, <<c, row.a>>)>>>>>>>>>>>>)
+     \/ \* literals at the join of a ternary (every opcode number), and constructs which end a body
+        /\ row.k = "j0"
+        /\ \E b \in 1..Opt!NJ :
+             /\ (Tier = "thorough" \/ (row.a + b + Seed - 1) % 3 = 0)
+             /\ row' = MkRow("join", Opt!JoinProg(Opt!JoinLits[row.a], Opt!JoinLits[b]))
+     \/ /\ row.k = "t0"
+        /\ \E o2 \in 1..Flow!NTail, leaf \in BOOLEAN : row' = MkRow("tail", Flow!TailProg(row.o1, o2, leaf))
      \/ /\ row.k = "o0"
         /\ \E m1 \in 0..Opt!NC, k2 \in 1..NK, m2 \in 0..Opt!NC, sh \in {"nest2", "seq2", "first"} :
              /\ (m1 > 0 => Opt!UsesC(row.k1)) /\ (m2 > 0 => Opt!UsesC(k2)) /\ (m1 > 0 \/ m2 > 0)
